@@ -375,9 +375,12 @@ class Engine:
         os.makedirs(os.path.join(VERIF, "evidence"), exist_ok=True)
         with open(os.path.join(VERIF, "evidence", p.id + ".json"), "w", encoding="utf-8") as f:
             json.dump(ev, f, indent=1, default=str)
-        self.say("%s tier=%s seed=%d: %d cases, %d distinct non-trivial, theorems %d/%d, build_ok=%s, exit %d, %.1fs" % (
+        self.say("%s tier=%s seed=%d: %d cases, %d distinct non-trivial, theorems %d/%d, build_ok=%s, B-fails %d (known %d), A/C-fails %d, exit %d, %.1fs" % (
             p.id, tier, self.seed, stats["evaluations"], len(stats["nontrivial"]), leanres["discharged"], len(leanres["theorems"]),
-            leanres["build_ok"], rc, time.time() - self.t0))
+            leanres["build_ok"], len(viol), len(knownhits), len(afails), rc, time.time() - self.t0))
+        if os.environ.get("VERIF_TAGS"):
+            for k, v in sorted(stats["tags"].items()):
+                self.say("  tag %-40s %d" % (k, v))
         return rc
 
     def match_known(self, f):
@@ -388,11 +391,17 @@ class Engine:
 
 
 def load_known():
-    path = os.path.join(VERIF, "known_findings.json")
-    if not os.path.exists(path):
-        return []
-    with open(path, encoding="utf-8") as f:
-        return json.load(f).get("findings", [])
+    """known_findings.json (index) + known/*.json (per property); committed, never written at run time"""
+    out = []
+    paths = [os.path.join(VERIF, "known_findings.json")]
+    kd = os.path.join(VERIF, "known")
+    if os.path.isdir(kd):
+        paths += [os.path.join(kd, n) for n in sorted(os.listdir(kd)) if n.endswith(".json")]
+    for path in paths:
+        if os.path.exists(path):
+            with open(path, encoding="utf-8") as f:
+                out += json.load(f).get("findings", [])
+    return out
 
 
 def replay(prop, modname, path):
